@@ -243,3 +243,82 @@ def rule_as_bool(model, rep, R):
     rep.check(n >= 1 and not bad and tail == "return bool(value)", R, s, f"`return none` under {bad or ['value is None / clean in _none_set']}; tail `{tail}`",
               "the `none` default is returned for None (and the documented 'none' words) only; numbers are converted with bool(value)",
               witness="des_crypt.using(truncate_error=True).using(truncate_error=0) keeps truncate_error=True: the number 0 is read as 'option not given'")
+
+
+def rule_len_after_encode(model, rep, R, prefixes, minimum=5):
+    """a value that the function itself converts to bytes (`v = v.encode(...)`, `v = to_bytes(v, ...)`, usually under `if isinstance(v, str)`)
+    may still be text before that statement: a `len(v)` evaluated earlier counts characters, not the bytes the algorithm consumes"""
+    n = 0
+    for un, unit in model.units.items():
+        if not un.startswith(tuple(prefixes)):
+            continue
+        for q, fn in unit.functions():
+            conv = {}
+            for a in walk_no_nested(fn):
+                if isinstance(a, ast.Assign) and len(a.targets) == 1 and isinstance(a.targets[0], ast.Name) and isinstance(a.value, ast.Call):
+                    v, c = a.targets[0].id, a.value
+                    by_method = isinstance(c.func, ast.Attribute) and c.func.attr == "encode" and isinstance(c.func.value, ast.Name) and c.func.value.id == v
+                    by_helper = ast.unparse(c.func).split(".")[-1] == "to_bytes" and c.args and isinstance(c.args[0], ast.Name) and c.args[0].id == v
+                    if by_method or by_helper:
+                        conv.setdefault(v, []).append(a)
+            for v, assigns in conv.items():
+                n += 1
+                first = min(assigns, key=lambda a: (a.lineno, a.col_offset))
+                early = [c for c in walk_no_nested(fn) if isinstance(c, ast.Call) and isinstance(c.func, ast.Name) and c.func.id == "len" and len(c.args) == 1
+                         and isinstance(c.args[0], ast.Name) and c.args[0].id == v and (c.lineno, c.col_offset) < (first.lineno, first.col_offset)]
+                s = f"{un}:{q}"
+                rep.check(not early, R, s, f"len({v}) before `{ast.unparse(first)[:60]}`" if early else f"len({v}) only after `{ast.unparse(first)[:50]}`",
+                          f"`{v}` is measured only after it has been brought to bytes",
+                          witness="a text password with multi-byte characters is measured in characters: the builtin sha-crypt digest differs from crypt(3)'s, a size limit is applied "
+                                  "to the wrong count, an HMAC key of more than one block is not pre-hashed")
+    if n < minimum:
+        rep.undecided(R, "<instance-count>", f"only {n} in-function conversions to bytes found, expected at least {minimum}")
+
+
+def rule_no_bool_coercer(model, rep, R):
+    """string option values (INI files, keyword strings) are converted by the functions in CryptContext's coercion table: `bool` is never one of
+    them, because bool('false') is True -- boolean options are parsed by as_bool() in the hasher's using()"""
+    CTX = "passlib.context"
+    v = model.unit(CTX).assigns.get("_coerce_scheme_options")
+    pairs = {}
+    if v and isinstance(v[0], ast.Call) and ast.unparse(v[0].func) == "dict":
+        pairs = {k.arg: ast.unparse(k.value) for k in v[0].keywords if k.arg}
+    elif v and isinstance(v[0], ast.Dict):
+        pairs = {k.value: ast.unparse(val) for k, val in zip(v[0].keys, v[0].values) if isinstance(k, ast.Constant)}
+    if not pairs:
+        rep.undecided(R, f"{CTX}:_coerce_scheme_options", "coercion table not found")
+        return
+    bad = sorted(k for k, f in pairs.items() if f == "bool")
+    rep.check(not bad, R, f"{CTX}:_coerce_scheme_options", f"coerced with bool(): {bad}" if bad else f"{len(pairs)} coercers, none is bool",
+              "no option is coerced from text with bool()",
+              witness="CryptContext.from_string('[passlib]\\nschemes = des_crypt\\ntruncate_error = false') raises PasswordTruncateError for a 9-byte password: 'false' became True")
+
+
+def rule_case_after_decode(model, rep, R, prefixes, minimum=3):
+    """a value the function itself converts to text (`v = to_unicode(v, ...)`, `v = v.decode(...)`, usually under `if isinstance(v, bytes)`) may
+    still be bytes before that statement: `.upper()` / `.lower()` applied earlier (or inside the conversion's own argument) folds ASCII letters only"""
+    n = 0
+    for un, unit in model.units.items():
+        if not un.startswith(tuple(prefixes)):
+            continue
+        for q, fn in unit.functions():
+            conv = {}
+            for a in walk_no_nested(fn):
+                if isinstance(a, ast.Assign) and len(a.targets) == 1 and isinstance(a.targets[0], ast.Name) and isinstance(a.value, ast.Call):
+                    v, c = a.targets[0].id, a.value
+                    mentions = any(isinstance(x, ast.Name) and x.id == v for x in ast.walk(c))
+                    by_method = isinstance(c.func, ast.Attribute) and c.func.attr == "decode" and mentions
+                    by_helper = ast.unparse(c.func).split(".")[-1] in ("to_unicode", "to_native_str") and mentions
+                    if by_method or by_helper:
+                        conv.setdefault(v, []).append(a)
+            for v, assigns in conv.items():
+                n += 1
+                first = min(assigns, key=lambda a: (a.lineno, a.col_offset))
+                end = (getattr(first, "end_lineno", first.lineno), getattr(first, "end_col_offset", 10 ** 6))
+                early = [c for c in walk_no_nested(fn) if isinstance(c, ast.Call) and isinstance(c.func, ast.Attribute) and c.func.attr in ("upper", "lower", "casefold", "title", "swapcase")
+                         and isinstance(c.func.value, ast.Name) and c.func.value.id == v and (c.lineno, c.col_offset) < end]
+                rep.check(not early, R, f"{un}:{q}", f"{ast.unparse(early[0])} before / inside `{ast.unparse(first)[:60]}`" if early else f"`{v}` case-folded only as text",
+                          f"`{v}` is case-folded only after it has been brought to text",
+                          witness="oracle10.hash('p\\u00e4ssword', user=u) no longer verifies 'p\\u00e4ssword'.encode(): bytes.upper() leaves the non-ASCII letter alone, str.upper() folds it")
+    if n < minimum:
+        rep.undecided(R, "<instance-count>", f"only {n} in-function conversions to text found, expected at least {minimum}")
